@@ -15,7 +15,7 @@ sys.path.insert(0, VERIF)
 
 
 # modules are registered only after the maintainer has reviewed them and `./check CNN` exits 0 on the pinned tree
-REGISTERED = ["C01", "C02", "C03", "C04", "C05", "C06", "C07", "C08", "C09", "C10", "C11", "C14", "C15", "C16", "C17", "C18", "C19", "C20"]
+REGISTERED = ["C01", "C02", "C03", "C04", "C05", "C06", "C07", "C08", "C09", "C10", "C11", "C12", "C13", "C14", "C15", "C16", "C17", "C18", "C19", "C20"]
 
 
 def load_claims():
